@@ -75,6 +75,11 @@ class _Ctx:
         self.fmt = fmt
         self.compiler = Compiler(ArchEnum.HEXAGON, code_format=CodeFormat[fmt])
         self.fault = CallbackFault(RZILTransformer)
+        try:
+            from rzilcompiler.HexagonExtensions import HexagonTransformerExtension
+            self.fault.install_meta(HexagonTransformerExtension)
+        except Exception:  # noqa: BLE001 - the seam is optional
+            pass
         import lark
         from sim.corpus import grammar_text
         # harness-owned parser for texts that are not in the inherited cache (built once per zygote)
@@ -117,7 +122,9 @@ def run_ops(ctx: _Ctx, ops: list) -> list:
             o["hyb_before"] = int(getattr(holder, "hybrid_op_count", -1))
         except Exception:  # noqa: BLE001
             o["hyb_before"] = -1
-        if fault:
+        if fault and fault.get("site") == "meta" and ctx.fault.meta is not None:
+            ctx.fault.arm_meta(fault["at"], fault["exc"])
+        elif fault:
             ctx.fault.arm(fault["at"], fault["when"], fault["exc"])
         else:
             ctx.fault.arm(-1, "pre", "ValueError")      # counts callbacks, never fires
@@ -200,6 +207,7 @@ def run_ops(ctx: _Ctx, ops: list) -> list:
             o["msg"] = str(ie)[:200]
         o["fault_fired"] = bool(ctx.fault.fired)
         o["ncb"] = ctx.fault.disarm()
+        o["nmeta"] = getattr(ctx.fault, "nmeta", 0)
         try:
             o["hyb_after"] = int(getattr(c.transformer.il_ops_holder, "hybrid_op_count", -1))
         except Exception:  # noqa: BLE001
